@@ -1,0 +1,31 @@
+//go:build verif
+
+// Exports of unexported workers for the verification harness under /verif.
+// Compiled only with -tags verif; adds code, changes none.
+package bchutil
+
+// ---- CashAddr checksum layer ----
+func VerifPolyMod(v []byte) uint64                           { return polyMod(v) }
+func VerifExpandPrefix(prefix string) []byte                 { return expandPrefix(prefix) }
+func VerifVerifyChecksum(prefix string, payload []byte) bool { return verifyChecksum(prefix, payload) }
+func VerifCreateChecksum(prefix string, payload []byte) []byte {
+	return createChecksum(prefix, payload)
+}
+func VerifEncode(prefix string, payload []byte) string { return encode(prefix, payload) }
+
+// ---- CashAddr payload layer ----
+func VerifConvertBits(data []byte, fromBits uint, tobits uint, pad bool) ([]byte, error) {
+	return convertBits(data, fromBits, tobits, pad)
+}
+func VerifPackAddressData(addrType AddressType, addrHash []byte) ([]byte, error) {
+	return packAddressData(addrType, addrHash)
+}
+func VerifCheckEncodeCashAddress(input []byte, prefix string, t AddressType) string {
+	return checkEncodeCashAddress(input, prefix, t)
+}
+func VerifCheckDecodeCashAddress(input string) ([]byte, string, AddressType, error) {
+	return checkDecodeCashAddress(input)
+}
+
+// ---- amount ----
+func VerifRound(f float64) Amount { return round(f) }
